@@ -4,7 +4,7 @@ from vlib.driver import Cond
 from vlib.common import Violation, BudgetExceeded, require, fail
 from vlib.oracles import dump, StepBudget
 from vlib.ctx import make_ctx_s, clear_parser_cache
-from vlib.parsefam import skel_pre, skel_fill, BS, limit_holes
+from vlib.parsefam import hole_variants, skel_pre, skel_fill, BS, limit_holes
 from pylatexenc.latexwalker import LatexWalker, LatexWalkerParseError, LatexWalkerEndOfStream
 from pylatexenc.latexnodes import LatexTokenReader, ParsingState
 from pylatexenc.latexnodes import parsers as P
@@ -368,9 +368,12 @@ def conditions(tier):
                               twin=False, descr='space, newline, x, { or %% in front of the environment, start position 0'))
     for i, (a, sk) in enumerate([('{*{', BS + 'n{a}?*{b}?'), ('{*', BS + 'n{a}?*?'), ('[*{', BS + 'n[a]?*{b}'), ('*[{', BS + 'n?*?[a]{b}'),
                                  ('{[', BS + 'n{a}?[b]?'), ('[{', BS + 'n?[a]?{b}'), ('{{', BS + 'n?a?b')]):
-        conds.append(Cond('spellskel_%d' % i, 's: str', skel_pre(sk), "body_spellings(s, %r, 'macro')" % a, timeout=T, twin=False, cost=2,
-                          smoke=[dict(s=skel_fill(sk, ' ')), dict(s=skel_fill(sk, 'x'))],
-                          descr='argument string %r, document %r (? = any character)' % (a, sk)))
+        # quick: each hole free in turn (the other pinned to x); thorough: both holes free
+        for tag, sk1 in (hole_variants(sk, 1) if quick else [('all', sk)]):
+            conds.append(Cond('spellskel_%d%s' % (i, '' if tag == 'all' else '_' + tag), 's: str', skel_pre(sk1),
+                              "body_spellings(s, %r, 'macro')" % a, timeout=T, twin=False, cost=2,
+                              smoke=[dict(s=skel_fill(sk, ' ')), dict(s=skel_fill(sk, 'x'))],
+                              descr='argument string %r, document %r (? = any character)' % (a, sk1)))
     return conds
 
 
